@@ -134,6 +134,7 @@ def classify(rec):
     return {"kind": rec.get("kind"), "op": rec.get("op"), "storage": rec.get("storage"), "route": rec.get("route"),
             "shape": rec.get("shape"), "transpose": rec.get("transpose"), "symptom": rec.get("symptom", ""),
             "what": rec.get("what"), "nonsquare": rec.get("shape") != "square", "variant": rec.get("variant", ""),
+            "route_family": (rec.get("route") or "").split(" [")[0], "nonsquareB": rec.get("shapeB", "square") != "square",
             "case": rec.get("case", "")}
 
 
@@ -325,9 +326,13 @@ def run(tier):
     # thread independence: the first operation of every behaviour is also replayed on operands inflated by
     # A (x) J_n / A (x) I_n with sizes that are NOT multiples of the thread counts (any chunking remainder is
     # exposed), through every route including the generic mixed-storage ones
-    combos = "combos=1:5,2:7,3:11,5:7,7:11,16:11"
-    phases = [("all1", 1, "full", "all", 16, []), ("red2", 2, "reduced", "std", 32, [combos])] if quick else \
-             [("all2", 2, "full", "all", 96, []), ("core3", 3, "reduced", "core", 96, [combos])]
+    # (threads : size); the generic n^4 congruence product is inflated up to dimension 22 only, the other generic
+    # routes up to 40: the sizes are chosen so that rows >= 2 threads and rows % threads != 0 within those caps
+    combos = "combos=1:5,2:7,3:7,5:7,7:5,16:11"
+    phases = [("all1", 1, "full", "all", 16, []), ("red2", 2, "reduced", "std", 32, []), ("thrq", 1, "inflate", "std", 16, [combos])] \
+        if quick else \
+             [("all1", 1, "full", "all", 16, []), ("all2", 2, "full", "std", 96, []), ("core3", 3, "reduced", "core", 96, []),
+              ("thrq", 1, "inflate", "all", 16, [combos])]
     nodes = 0
     for tag, maxlen, init, ops, nb, hopts in phases:
         dis, gen, stats = machine_phase(ck, exe, tag, maxlen, init, ops, nb, harness_opts=hopts)
